@@ -2663,9 +2663,12 @@ impl<T: Storage> Raft<T> {
 
         // Now go ahead and actually restore.
 
-        if self.pending_request_snapshot == INVALID_INDEX
-            && self.raft_log.match_term(meta.index, meta.term)
-        {
+        // A snapshot below the requested index is not the one this node asked for (e.g. one
+        // that was already in flight when it asked): treat it like any unrequested snapshot,
+        // so a matching one never discards the acknowledged entries after it.
+        let requested = self.pending_request_snapshot != INVALID_INDEX
+            && meta.index >= self.pending_request_snapshot;
+        if !requested && self.raft_log.match_term(meta.index, meta.term) {
             info!(
                 self.logger,
                 "fast-forwarded commit to snapshot";
